@@ -49,18 +49,19 @@ HANG_LIMIT = 6      # after this many hangs (all workers together) the remaining
 PROCS = int(os.environ.get('C03_PROCS', '16'))
 
 ALL_FIELDS = {"tokens", "next_match", "token", "next_token"}
-SOURCE_CLASSES = ["ok", "ok2", "lex", "syntax", "syntaxend", "comment", "unkfn", "type", "prefix"]
+SOURCE_CLASSES = ["ok", "ok2", "lex", "syntax", "syntaxend", "comment", "unkfn", "type", "prefix", "arrowfail"]
 # binding table: source class -> text (per version where they differ)
 SOURCE_TEXT = {
     'ok': 'a/b[1]', 'ok2': 'count(//a) + 2', 'lex': '1 ~ 2', 'syntax': '1 + ) 2', 'syntaxend': '( 1 +',
     'comment': '1 (: abc', 'unkfn': 'foo(1)', 'type': {'1.0': "sum('a')", '*': "1 + 'a'"}, 'prefix': 'p:a',
+    'arrowfail': '1 => unknown:f()',
 }
 
 TIERS = {
     'quick': dict(token_runs=[('all3', 'all', 3)], expr_thin=12, rep_thin=6,
-                  life=dict(Instances={1, 2}, MaxCalls=3), trace_versions=['3.1']),
+                  life=dict(Instances={1, 2}, MaxCalls=3), trace_versions=['3.1'], max_dev=1),
     'thorough': dict(token_runs=[('all3', 'all', 3), ('core4', 'core', 4)], expr_thin=1, rep_thin=3,
-                     life=dict(Instances={1, 2}, MaxCalls=3), trace_versions=VERSIONS),
+                     life=dict(Instances={1, 2}, MaxCalls=3), trace_versions=VERSIONS, max_dev=2),
 }
 
 
@@ -98,6 +99,10 @@ def fingerprint(e: BaseException) -> dict:
         f = frames[-1] if frames else None
         return {'exc': exc, 'where': getattr(f.f_code, 'co_qualname', f.f_code.co_name) if f else None, 'sym': None}
     f = ep[-1]
+    for g in reversed(ep):      # an IndexError/KeyError raised inside Token.__getitem__ belongs to its caller
+        if g.f_code.co_name not in ('__getitem__', '__iter__', '__len__', '__next__', '__contains__'):
+            f = g
+            break
     sym = None
     for g in reversed(ep):
         sym = sym_of(g)
@@ -293,11 +298,18 @@ def apply_mut(toks: list, m: tuple) -> list:
 # driving the real code (workers)
 
 class _Hang(BaseException):
-    pass
+    where = None
 
 
 def _on_alarm(signum, frame):
-    raise _Hang()
+    h = _Hang()
+    f = frame
+    while f is not None:      # innermost elementpath frame of the interrupted call
+        if '/elementpath/' in f.f_code.co_filename.replace('\\', '/'):
+            h.where = getattr(f.f_code, 'co_qualname', f.f_code.co_name)
+            break
+        f = f.f_back
+    raise h
 
 
 _W: dict = {}
@@ -305,16 +317,34 @@ import multiprocessing as _mp   # noqa: E402
 _HANGS = _mp.get_context('fork').Value('i', 0)     # shared with the forked workers
 
 
-def _note_hang() -> None:
+def _note_hang(feat: dict | None = None) -> None:
+    """Count a hang for the circuit breaker -- unless it is a listed known finding."""
+    if feat is not None:
+        jf = core.jsonable(feat)
+        if any(core.match_pattern(p, jf) for p in _W.get('known', ())):
+            return
     with _HANGS.get_lock():
         _HANGS.value += 1
+
+
+def _lock_hygiene() -> bool:
+    """An escaped exception may leave the process-wide collation lock held (C19's business); release it so
+    that the NEXT case is not judged a hang because of this one."""
+    lk = _W.get('lock')
+    try:
+        if lk is not None and lk.locked():
+            lk.release()
+            return True
+    except Exception:   # noqa
+        pass
+    return False
 
 
 def _too_many_hangs() -> bool:
     return _HANGS.value >= HANG_LIMIT
 
 
-def _winit(legal_parse, legal_eval, limit=True):
+def _winit(legal_parse, legal_eval, known=(), limit=True):
     if limit:   # worker processes only (the main process still has to start JVMs)
         import resource
         try:
@@ -329,6 +359,12 @@ def _winit(legal_parse, legal_eval, limit=True):
     from elementpath.xpath30 import XPath30Parser
     from elementpath.xpath31 import XPath31Parser
     doc = ET.ElementTree(ET.fromstring(DOC_XML))
+    try:
+        from elementpath import collations
+        _W['lock'] = getattr(collations, '_locale_collate_lock', None)
+    except Exception:   # noqa
+        _W['lock'] = None
+    _W['known'] = list(known)
     _W.update(
         P={'1.0': XPath1Parser, '2.0': XPath2Parser, '3.0': XPath30Parser, '3.1': XPath31Parser},
         EPE=ElementPathError, doc=doc, legal={'parse': legal_parse, 'eval': legal_eval},
@@ -349,7 +385,8 @@ def _classify(e: BaseException):
     if isinstance(e, MemoryError):
         return None, None, None
     if isinstance(e, _Hang):
-        return ('hang', False), 'hang', {'exc': 'hang', 'where': None, 'sym': None}
+        return ('hang', False), 'hang', {'exc': 'hang', 'where': e.where, 'sym': None}
+    _lock_hygiene()
     return ('escaped', False), type(e).__name__, fingerprint(e)
 
 
@@ -406,8 +443,10 @@ class _Agg:
             self.stats['skipped_after_hangs'] += 1
             return 'skipped'
         obs = run_text(version, text)
-        if any(o[2] is not None and o[2][0] == 'hang' for o in obs):
-            _note_hang()
+        for o in obs:
+            if o[2] is not None and o[2][0] == 'hang':
+                _lock_hygiene()
+                _note_hang(escape_features('hang', o[0], o[4]))
         parsed = False
         pcode = None
         for phase, detail, shape, ident, fp in obs:
@@ -521,6 +560,137 @@ def mut_worker(job):
     return agg.result()
 
 
+
+# ---- function-call family (spec/ArgClass.tla) ----------------------------------------------------
+
+ARG_CLASSES = ["attr", "elem", "untyped_bad", "untyped_ok", "empty", "wrong_str", "wrong_num", "wrong_dur",
+               "seq", "func", "map", "array", "bigneg", "baduri", "nul"]
+# binding table: item type -> (an expression of that type, a valid lexical form of that type)
+TYPE_TABLE = {
+    'xs:string': ("'a'", 'a'), 'xs:integer': ('1', '1'), 'xs:double': ('1.5e0', '1.5'), 'xs:decimal': ('1.5', '1.5'),
+    'xs:float': ("xs:float('1.5')", '1.5'), 'xs:numeric': ('1.5', '1.5'), 'xs:boolean': ('true()', 'true'),
+    'xs:date': ("xs:date('2000-01-01')", '2000-01-01'), 'xs:dateTime': ("xs:dateTime('2000-01-01T10:00:00')", '2000-01-01T10:00:00'),
+    'xs:dateTimeStamp': ("xs:dateTime('2000-01-01T10:00:00Z')", '2000-01-01T10:00:00Z'),
+    'xs:time': ("xs:time('10:00:00')", '10:00:00'), 'xs:duration': ("xs:duration('P1D')", 'P1D'),
+    'xs:dayTimeDuration': ("xs:dayTimeDuration('PT1H')", 'PT1H'), 'xs:yearMonthDuration': ("xs:yearMonthDuration('P1Y')", 'P1Y'),
+    'xs:QName': ("xs:QName('a')", 'a'), 'xs:anyURI': ("xs:anyURI('u')", 'u'), 'xs:anyAtomicType': ("'a'", 'a'),
+    'item()': ("'a'", 'a'), 'node()': ('/a', 'a'), 'element()': ('/a', 'a'), 'map(*)': ("map{'a':1}", 'a'),
+    'array(*)': ('[1, 2]', 'a'), 'function(*)': ('fn:abs#1', 'a'),
+    'xs:gYear': ("xs:gYear('2000')", '2000'), 'xs:gYearMonth': ("xs:gYearMonth('2000-01')", '2000-01'),
+    'xs:gMonth': ("xs:gMonth('--01')", '--01'), 'xs:gMonthDay': ("xs:gMonthDay('--01-01')", '--01-01'),
+    'xs:gDay': ("xs:gDay('---01')", '---01'), 'xs:hexBinary': ("xs:hexBinary('0A')", '0A'),
+    'xs:base64Binary': ("xs:base64Binary('AAAA')", 'AAAA'), 'xs:language': ("'en'", 'en'), 'xs:untypedAtomic': ("xs:untypedAtomic('a')", 'a'),
+}
+for _t in ('long', 'int', 'short', 'byte', 'nonNegativeInteger', 'positiveInteger', 'unsignedLong', 'unsignedInt',
+           'unsignedShort', 'unsignedByte'):
+    TYPE_TABLE['xs:' + _t] = ('1', '1')
+for _t in ('nonPositiveInteger', 'negativeInteger'):
+    TYPE_TABLE['xs:' + _t] = ('-1', '-1')
+CLASS_TEXT = {'attr': '/a/@x', 'elem': '/a/b', 'untyped_bad': "xs:untypedAtomic('x')", 'empty': '()', 'wrong_str': "'s'",
+              'wrong_num': '1', 'wrong_dur': "xs:dayTimeDuration('PT1S')", 'func': 'fn:abs#1', 'map': 'map{}', 'array': '[]',
+              'bigneg': '-1000000000000', 'baduri': "'http://['", 'nul': "'\x00'"}
+
+
+def split_signature(sig: str) -> list[str]:
+    """'function(xs:string?, item()*) as xs:string' -> ['xs:string?', 'item()*'] (top-level commas only)."""
+    if not sig.startswith('function('):
+        raise tla.MachineryError(f'unexpected signature {sig!r}')
+    depth, cur, parts = 0, '', []
+    for c in sig[len('function('):]:
+        if c == '(':
+            depth += 1
+        elif c == ')':
+            if depth == 0:
+                break
+            depth -= 1
+        if c == ',' and depth == 0:
+            parts.append(cur.strip())
+            cur = ''
+        else:
+            cur += c
+    if cur.strip():
+        parts.append(cur.strip())
+    return parts
+
+
+def export_signatures() -> list[tuple[str, list[str]]]:
+    """Binding C: the live signature table of the working tree (XPath31Parser.function_signatures) plus the
+    xs: constructor functions of its symbol table, as (prefixed name, parameter types)."""
+    from elementpath.xpath31 import XPath31Parser
+    out = []
+    for (qname, arity), sig in XPath31Parser.function_signatures.items():
+        ptypes = ['xs:anyAtomicType?' if p == '...' else p for p in split_signature(sig)]
+        out.append((qname.qname, ptypes))
+    for cls in set(XPath31Parser.symbol_table.values()):
+        if 'constructor' in str(getattr(cls, 'label', '')) and isinstance(getattr(cls, 'symbol', None), str):
+            out.append(('xs:' + cls.symbol, ['lex:xs:' + cls.symbol]))
+    return sorted(set((n, tuple(p)) for n, p in out))
+
+
+def render_arg(ptype: str, cls: str) -> str:
+    lexical_of = ptype.startswith('lex:')        # constructor: the argument is a lexical form of the target type
+    base = ptype[4:] if lexical_of else ptype
+    if not base.endswith(')') and base[-1] in '?*+':
+        base = base[:-1]
+    elif base.endswith((')?', ')*', ')+')):
+        base = base[:-1]
+    if base.startswith('function(') and base != 'function(*)':
+        n = len(split_signature(base))
+        valid, lex = 'function(' + ', '.join(f'$p{i}' for i in range(n)) + ') { 1 }', 'a'
+    else:
+        if base.startswith('element('):
+            base = 'element()'
+        valid, lex = TYPE_TABLE.get(base, ("'a'", 'a'))
+    if lexical_of:
+        valid = "'" + lex + "'"
+    if cls == 'valid':
+        return valid
+    if cls == 'untyped_ok':
+        return "xs:untypedAtomic('" + lex + "')"
+    if cls == 'seq':
+        return '(' + valid + ', ' + valid + ')'
+    return CLASS_TEXT[cls]
+
+
+def render_call(name: str, ptypes, args) -> str:
+    return name + '(' + ', '.join(render_arg(t, c) for t, c in zip(ptypes, args)) + ')'
+
+
+def call_worker(job):
+    """job: list of (name, ptypes, args)."""
+    agg = _Agg()
+    for name, ptypes, args in job:
+        text = render_call(name, ptypes, args)
+        for v in VERSIONS:
+            agg.judge(v, text, dict(kind='call', function=name, parameter_types=list(ptypes), argument_classes=list(args)))
+    return agg.result()
+
+
+def stress_worker(job):
+    agg = _Agg()
+    for vec in job:
+        text = vec['pre'] * vec['n'] + vec['mid'] + vec['post'] * vec['n'] + vec['tail']
+        for v in VERSIONS:
+            agg.judge(v, text, dict(kind='stress', vector=dict(vec)))
+    # keep replay files small: a stress text is described by its vector
+    for ent in agg.fails.values():
+        if len(ent[2]['text']) > 300:
+            ent[2]['text_len'] = len(ent[2]['text'])
+    return agg.result()
+
+
+def seed_worker(job):
+    """job: list of (k, seed tokens, [descriptors]); the seed itself and every mutation, joined by one space."""
+    agg = _Agg()
+    for k, seed, muts in job:
+        for m in [None] + list(muts):
+            toks = list(seed) if m is None else apply_mut(list(seed), m)
+            text = ' '.join(toks)
+            for v in VERSIONS:
+                agg.judge(v, text, dict(kind='seed', seed=' '.join(seed), mutation=list(m) if m else None))
+    return agg.result()
+
+
 # ---- parse histories (ParserLife graph paths) -------------------------------------------
 
 def _parse_outcome(parser, text):
@@ -533,9 +703,9 @@ def _parse_outcome(parser, text):
         except EPE as e:
             code = getattr(e, 'code', None)
             out = ('err', bool(code), str(code), None)
-        except _Hang:
-            out = ('hang', False, 'hang', {'exc': 'hang', 'where': None, 'sym': None})
-            _note_hang()
+        except _Hang as e:
+            out = ('hang', False, 'hang', {'exc': 'hang', 'where': e.where, 'sym': None})
+            _note_hang(escape_features('hang', 'parse', out[3]))
         except BaseException as e:   # noqa
             out = ('escaped', False, type(e).__name__, fingerprint(e))
     finally:
@@ -580,23 +750,38 @@ def history_worker(job):
             stats['evaluations'] += 1
             stats['history_calls'] += 1
             case = dict(mode='history', version=version, history=hist_desc, upto=n + 1)
-            prev = [x[1] for x in hist_desc[:n]]
-            if out[0] in ('escaped', 'hang'):
-                fp = out[3]
-                fail(escape_features(out[0], 'parse', fp), case, 'member of LegalShapes(parse)', list(out[:3]))
+            reported = False
+            if out[:3] != fresh[sc][:3]:
+                # history dependence: find the earlier call that alone reproduces it on fresh instances
+                culprit = 'combination'
+                for q, c in hist_desc[:n]:
+                    p1 = cls()
+                    _parse_outcome(p1, source_text(c, version))
+                    p2 = p1 if q == p else cls()
+                    stats['evaluations'] += 2
+                    if _parse_outcome(p2, text)[:3] == out[:3]:
+                        culprit = c if q == p else c + '@other-instance'
+                        break
+                feat = dict(kind='history', version=version, src_class=sc, culprit=culprit,
+                            fresh=fresh[sc][0], observed=out[0])
+                if out[3]:
+                    feat.update(exc=out[3]['exc'], where=out[3]['where'])
+                fail(feat, case, list(fresh[sc][:3]), list(out[:3]))
+                reported = True
+            elif out[0] in ('escaped', 'hang'):
+                fail(escape_features(out[0], 'parse', out[3]), case, 'member of LegalShapes(parse)', list(out[:3]))
+                reported = True
             elif out[0] != exp_kind:
                 fail(dict(kind='class-outcome', version=version, src_class=sc, expected=exp_kind, observed=out[0],
                           first_call=(n == 0)), case, exp_kind, list(out[:3]))
-            if out[:3] != fresh[sc][:3]:
-                fail(dict(kind='history', version=version, src_class=sc, after=prev[-1] if prev else None,
-                          fresh=fresh[sc][0], observed=out[0]), case, list(fresh[sc][:3]), list(out[:3]))
             if bad:
                 fail(dict(kind='cursor', field=bad[0], after=out[0]), case, 'cursor reset', bad)
+                reported = True
             if record:
                 ident = out[2] if out[0] != 'value' else 'tree:' + hashlib.sha1(out[2].encode()).hexdigest()[:12]
                 events.append({'e': 'call', 'p': p, 's': SOURCE_CLASSES.index(sc) + 1})
                 events.append({'e': 'ret', 'p': p, 's': SOURCE_CLASSES.index(sc) + 1, 'k': out[0], 'coded': out[1],
-                               'v': ident, 'reset': not bad, 'fields': bad, 'text': text,
+                               'v': ident, 'reset': not bad, 'fields': bad, 'text': text, 'reported': reported,
                                **({} if out[3] is None else out[3])})
         stats['histories'] += 1
         if record:
@@ -706,7 +891,7 @@ def run(chk: core.Check) -> None:
         raise tla.MachineryError('no apply vectors printed')
     chk.coverage['apply_vectors_checked'] = n_apply
     chk.coverage['legal_shapes'] = dict(parse=core.jsonable(legal_parse), eval=core.jsonable(legal_eval))
-    initargs = (legal_parse, legal_eval)
+    initargs = (legal_parse, legal_eval, [k['fingerprint'] for k in chk.known])
 
     # ---- 2. Tokens: every sequence, replayed -------------------------------------------
     gram_total = collections.Counter()
@@ -755,6 +940,49 @@ def run(chk: core.Check) -> None:
     if gram_total.get('grammatical_REJECTED') or gram_total.get('ill_ACCEPTED'):
         chk.note(f'grammar classes of Tokens.tla vs parsers disagree (C04 territory, not judged here): '
                  f'{dict(gram_total)} e.g. {gram_bad_all[:5]}')
+
+    # ---- 2b. ArgClass: every (function, parameter position, argument class) -------------------
+    sigs = export_signatures()
+    if len(sigs) < 100:
+        raise tla.MachineryError(f'only {len(sigs)} function signatures exported')
+    gen_a = os.path.join(chk.scratch, 'gen_args')
+    os.makedirs(gen_a, exist_ok=True)
+    with open(os.path.join(gen_a, 'C03ArgPlan.tla'), 'w') as fh:
+        fh.write('---- MODULE C03ArgPlan ----\n(* generated: arities of the exported signatures (binding C) *)\n'
+                 'EXTENDS Naturals, Sequences\nCONSTANTS Classes, MaxDev\nVARIABLES sig, args\n')
+        fh.write('GenArity == <<' + ', '.join(str(len(p)) for _, p in sigs) + '>>\n')
+        fh.write('INSTANCE ArgClass WITH Arity <- GenArity\n====\n')
+    wd = os.path.join(chk.scratch, 'args')
+    dot = os.path.join(wd, 'g.dot')
+    cfg = tla.cfg_text(dict(Classes=set(ARG_CLASSES), MaxDev=tier['max_dev']), invariants=['TypeOK', 'Bounded'])
+    r = tla.require_ok(tla.run_tlc('C03ArgPlan', cfg, wd, dump_dot=dot, workers=min(PROCS, 8), extra_modules_dir=gen_a), 'ArgClass')
+    chk.model('ArgClass', r)
+    t0 = time.time()
+    g = tla.load_dot(dot)
+    os.remove(dot)
+    n_edges = len(g.edges)
+    calls = sorted((st['sig'], tuple(st['args'])) for st in g.states.values())
+    del g
+    plan1 = next(printed(r.output, 'plan_size_1'), (0,))[0]
+    n1 = sum(1 for _, a in calls if sum(c != 'valid' for c in a) <= 1)
+    if n1 != plan1 or n1 != len(sigs) + sum(len(p) for _, p in sigs) * len(ARG_CLASSES):
+        raise tla.MachineryError(f'ArgClass plan incomplete: {n1} calls with <= 1 deviation, TLC says {plan1}')
+    for i, a in calls:
+        if len(a) != len(sigs[i - 1][1]):
+            raise tla.MachineryError('ArgClass graph does not match the exported table')
+    cjobs = [(sigs[i - 1][0], sigs[i - 1][1], a) for i, a in calls]
+    cjobs.sort(key=lambda j: hash(j) % 1009)
+    for st, fails, nontriv, samples in core.pool_map(call_worker, chunks(cjobs, PROCS * 8), procs=PROCS,
+                                                     initializer=_winit, initargs=initargs):
+        stats.update(st)
+        merge_fails(all_fails, fails)
+        nontrivial |= nontriv
+        for s in samples[:1]:
+            chk.sample(s, cap=6)
+    chk.add('transitions', n_edges)
+    chk.coverage['function_signatures_exported'] = len(sigs)
+    chk.coverage['function_calls_replayed'] = len(cjobs)
+    print(f'  ArgClass: signatures={len(sigs)} calls={len(cjobs)} tlc={r.wall_s:.1f}s replay={time.time() - t0:.1f}s', flush=True)
 
     # ---- 3. ParserLife: model, self-tests, histories ------------------------------------
     wd = os.path.join(chk.scratch, 'life')
@@ -899,7 +1127,9 @@ def run(chk: core.Check) -> None:
     with open(os.path.join(gen, 'C03MutPlan.tla'), 'w') as fh:
         fh.write('---- MODULE C03MutPlan ----\n(* generated: token counts of the harvested expressions *)\nEXTENDS Tokens\n')
         fh.write('GenLens == <<' + ', '.join(map(str, lens)) + '>>\n')
-        fh.write('ASSUME PrintPlan == \\A k \\in 1..Len(GenLens) : ExprChosen(k) => PrintT(<<"mut", k, Chosen(k, GenLens[k])>>)\n====\n')
+        fh.write('ASSUME PrintPlan == \\A k \\in 1..Len(GenLens) : ExprChosen(k) => PrintT(<<"mut", k, Chosen(k, GenLens[k])>>)\n')
+        fh.write('ASSUME PrintSeeds == \\A k \\in 1..Len(Seeds) : PrintT(<<"seedmut", k, Seeds[k], MutOps(Len(Seeds[k]), Alphabet)>>)\n')
+        fh.write('ASSUME PrintStress == PrintT(<<"stress", Stress>>)\n====\n')
     cfg = tla.cfg_text(dict(Alphabet=set(all_tokens), MaxLen=0, **base), invariants=['TypeOK'])
     r = tla.require_ok(tla.run_tlc('C03MutPlan', cfg, os.path.join(chk.scratch, 'mutplan'), workers=1,
                                    extra_modules_dir=gen), 'C03MutPlan')
@@ -913,7 +1143,25 @@ def run(chk: core.Check) -> None:
         ms = sorted(tuple(m) for m in muts)
         n_mut += len(ms)
         mjobs.append((v, text, k, ms))
+    sjobs = [(k, tuple(seed), sorted(tuple(m) for m in muts)) for k, seed, muts in printed(r.output, 'seedmut')]
+    stress = [dict(v) for v in next(printed(r.output, 'stress'), (frozenset(),))[0]]
     del r
+    if (len(sjobs) < 5 or len(stress) < 3) and not _too_many_hangs():
+        raise tla.MachineryError('TLC printed no seed / stress plan')
+    t1 = time.time()
+    seed_units = [(k, seed, ms[i:i + 200]) for k, seed, ms in sjobs for i in range(0, len(ms), 200)]
+    n_seed = sum(len(ms) for _, _, ms in sjobs) + len(sjobs)
+    for worker, jobs_ in ((seed_worker, chunks(seed_units, PROCS * 4)),
+                          (stress_worker, [[v] for v in sorted(stress, key=lambda v: (v['pre'], v['n']))])):
+        for st, fails, nontriv, samples in core.pool_map(worker, jobs_, procs=PROCS, initializer=_winit, initargs=initargs):
+            stats.update(st)
+            merge_fails(all_fails, fails)
+            nontrivial |= nontriv
+    chk.add('transitions', n_seed + len(stress))
+    chk.coverage['seed_expressions'] = len(sjobs)
+    chk.coverage['seed_mutations_replayed'] = n_seed
+    chk.coverage['stress_vectors'] = len(stress)
+    print(f'  seeds: {len(sjobs)} seeds, {n_seed} mutants; stress vectors: {len(stress)}; replay={time.time() - t1:.1f}s', flush=True)
     if n_mut < 1000 and not _too_many_hangs():
         raise tla.MachineryError(f'TLC chose only {n_mut} mutations')
     mjobs.sort(key=lambda j: (j[2] * 7919) % 10007)   # spread long expressions over the chunks
@@ -955,6 +1203,7 @@ def run(chk: core.Check) -> None:
     if set(done) != set(range(1, len(side) + 1)):
         raise tla.MachineryError(f'TLC finished {len(done)} of {len(side)} traces')
     rejected = collections.Counter()
+    already = 0
     for tid, i, legal, consistent, reset in printed(r.output, 'reject'):
         name, evs, is_suite = side[tid - 1]
         e = evs[i - 1]
@@ -963,6 +1212,9 @@ def run(chk: core.Check) -> None:
         case = dict(mode='trace', trace=name, index=i, parser_class=cls, text=text, event={k: v for k, v in e.items() if k != 'test'})
         if e['e'] != 'ret':
             raise tla.MachineryError(f'call event rejected (recorder broken?): {case}')
+        if not is_suite and e.get('reported'):
+            already += 1     # the history replay reported this very call
+            continue
         if not legal:
             kind = 'uncoded' if e['k'] == 'err' else e['k']
             ent = [escape_features(kind, 'parse', e), 1, case, 'ApiRetStep: legal outcome', [e['k'], e['v']]]
@@ -979,6 +1231,7 @@ def run(chk: core.Check) -> None:
     chk.coverage['traces_with_rejected_events'] = len(rejected)
     chk.coverage['trace_events'] = n_events
     chk.coverage['trace_events_rejected'] = sum(rejected.values())
+    chk.coverage['trace_rejections_reported_by_history_replay'] = already
     chk.add('transitions', n_events - sum(rejected.values()))
     if suite_traces:
         name, evs = suite_traces[len(suite_traces) // 2]
